@@ -3,6 +3,9 @@ import FluteModel.Partition
 namespace Flute.Drv.Part
 open Flute Flute.Partition
 
+/-- sum of the bytes `(7·i + 3) mod 256` for `s ≤ i < en` (the harness's synthetic object content) -/
+def byteSum (s en : Nat) : Nat := ((List.range (en - s)).map fun i => (7 * (s + i) + 3) % 256).sum
+
 def showQuad (q : Quad) : String := s!"{q.1} {q.2.1} {q.2.2.1} {q.2.2.2}"
 
 /-- `part bp b l e` | `part bl aL aS nL l e sbn` | `part sb b l e` (sender slicing) |
@@ -16,6 +19,12 @@ def step (args : List String) : String :=
   | ["bl", aL, aS, nL, l, e, sbn] =>
     match nats? [aL, aS, nL, l, e, sbn] with
     | some [aL, aS, nL, l, e, sbn] => showRs toString (blockLength aL aS nL l e sbn)
+    | _ => "bad-op"
+  | ["fti", _scheme, l, e, z] =>
+    match nats? [l, e, z] with
+    | some [l, e, z] =>
+      -- e = 0 / z = 0 are rejected by the parsers before the reconstruction
+      if e = 0 ∨ z = 0 then "ERR" else s!"ok {reconstructB l e z % 2^32}"
     | _ => "bad-op"
   | ["rcv", _scheme, _inband, b, l, e] =>
     -- receiver side: one write per block, of the RFC byte length; completed once, no error
@@ -46,7 +55,7 @@ def step (args : List String) : String :=
         | .ok q =>
           if l = 0 then "ok" else
           let bl := senderBlocks q l e (l + 1) 0 0
-          "ok" ++ String.join (bl.map fun (k, s, en) => s!" {k}:{en - s}")
+          "ok" ++ String.join (bl.map fun (k, s, en) => s!" {k}:{en - s}:{byteSum s en}")
       | _ => "bad-op"
     else "bad-op"
   | _ => "bad-op"
